@@ -49,6 +49,18 @@ def soft_output(s, rows, nv):
         exp = rows
     llr = d(y, nv)
     llr = llr.reshape(len(rows), -1)
+    # the first rows again as un-batched 1-D symbol vectors: a row whose LLR signs differ from the batched call replaces it (and is then judged
+    # by every consumer); a demodulator may reject the 1-D form
+    for i in range(min(3, len(rows))):
+        try:
+            if hasattr(d, "reset_state"):
+                d.reset_state()
+            l1 = d(y[i], nv).reshape(-1)
+        except Exception:
+            continue
+        if l1.shape == llr[i].shape and bool((torch.sign(l1) != torch.sign(llr[i])).any()):
+            llr = llr.clone()
+            llr[i] = l1
     if s.kind == "oqpsk":
         # quadrature stream is delayed by one symbol: compare from the second symbol on, with the delayed bits
         exp = [[(r[2 * i] if j == 0 else r[2 * (i - 1) + 1]) for i in range(1, len(r) // 2) for j in (0, 1)] for r in rows]
